@@ -6,7 +6,7 @@ use serde_json::{json, Value};
 use std::cell::RefCell;
 use std::collections::{BTreeMap, HashSet};
 use std::panic::{catch_unwind, AssertUnwindSafe};
-use std::sync::atomic::{AtomicU64, Ordering};
+use std::sync::atomic::{AtomicU64, AtomicUsize, Ordering};
 use std::sync::Mutex;
 use std::time::Instant;
 
@@ -292,40 +292,113 @@ impl CheckCtx {
             viol: BTreeMap<String, (u64, u64, Violation)>,
             nviol: u64,
             log_xor: u64,
+            done_runs: u64,
         }
-        let total = Mutex::new(Acc {
-            steps: 0,
-            faults: Counters::new(),
-            probes: Counters::new(),
-            sigs: HashSet::new(),
-            nontrivial: HashSet::new(),
-            viol: BTreeMap::new(),
-            nviol: 0,
-            log_xor: 0,
-        });
+        impl Acc {
+            fn new() -> Self {
+                Acc { steps: 0, faults: Counters::new(), probes: Counters::new(), sigs: HashSet::new(), nontrivial: HashSet::new(), viol: BTreeMap::new(), nviol: 0, log_xor: 0, done_runs: 0 }
+            }
+            fn merge_into(self, t: &mut Acc) {
+                t.steps += self.steps;
+                for (k, v) in self.faults {
+                    *t.faults.entry(k).or_insert(0) += v;
+                }
+                for (k, v) in self.probes {
+                    *t.probes.entry(k).or_insert(0) += v;
+                }
+                t.sigs.extend(self.sigs);
+                t.nontrivial.extend(self.nontrivial);
+                t.nviol += self.nviol;
+                t.log_xor ^= self.log_xor;
+                t.done_runs += self.done_runs;
+                for (c, x) in self.viol {
+                    match t.viol.get(&c) {
+                        Some(old) if old.0 <= x.0 => {}
+                        _ => {
+                            t.viol.insert(c, x);
+                        }
+                    }
+                }
+            }
+        }
+        let total = Mutex::new(Acc::new());
         let chunk: u64 = (runs / (self.workers.max(1) as u64 * 8)).clamp(1, 64);
+        let nworkers = self.workers.max(1);
+        // watchdog state: which run every worker is executing and since when (ms since t0)
+        let inflight: Vec<(AtomicU64, AtomicU64)> = (0..nworkers).map(|_| (AtomicU64::new(0), AtomicU64::new(0))).collect();
+        let finished = AtomicUsize::new(0);
+        let limit_ms = run_timeout_ms();
+        let verif_dir = self.verif_dir.clone();
+        let (prior_eval, prior_nontrivial) = (self.evaluations, self.nontrivial_sigs.len());
+        let level = self.level;
+        let started = self.started;
         std::thread::scope(|sc| {
-            for _ in 0..self.workers.max(1) {
-                sc.spawn(|| {
-                    let mut acc = Acc {
-                        steps: 0,
-                        faults: Counters::new(),
-                        probes: Counters::new(),
-                        sigs: HashSet::new(),
-                        nontrivial: HashSet::new(),
-                        viol: BTreeMap::new(),
-                        nviol: 0,
-                        log_xor: 0,
-                    };
+            // a run that does not return is reported like any other violation: the library loops forever
+            sc.spawn(|| loop {
+                std::thread::sleep(std::time::Duration::from_millis(200));
+                if finished.load(Ordering::SeqCst) >= nworkers {
+                    break;
+                }
+                let now = t0.elapsed().as_millis() as u64;
+                for slot in inflight.iter() {
+                    let r = slot.0.load(Ordering::SeqCst);
+                    let since = slot.1.load(Ordering::SeqCst);
+                    if r > 0 && now.saturating_sub(since) > limit_ms {
+                        let run = r - 1;
+                        let seed = run_seed(master, prop, S::NAME, run);
+                        let case = S::generate(seed, run, prop, tier);
+                        let v = Violation { property: prop, class: format!("{}/hang", S::NAME), step: 0,
+                            detail: format!("the run did not return within {} s: an operation of the library does not terminate", limit_ms / 1000) };
+                        let file = write_replay::<S>(&verif_dir, prop, master, run, seed, &case, &v);
+                        println!("VIOLATION property={} replay={}", prop, file);
+                        println!("  class={} scenario={} run={} :: {}", v.class, S::NAME, run, v.detail);
+                        let (done_runs, nontriv) = {
+                            let t = total.lock().unwrap();
+                            (t.done_runs, t.nontrivial.len())
+                        };
+                        let wall = started.elapsed().as_secs_f64();
+                        let ev = json!({
+                            "property_id": prop, "tier": tier.name(), "seed": master, "level": level,
+                            "coverage": {
+                                "evaluations": prior_eval + done_runs + 1,
+                                "distinct_nontrivial": prior_nontrivial + nontriv,
+                                "rule": format!("{}: {}", S::NAME, S::RULE),
+                                "samples": [{"scenario": S::NAME, "run": run, "seed": seed, "case": S::describe(&case), "outcome": "did not terminate"}],
+                                "aborted": "a run exceeded the per-run time limit; the batch was abandoned and the run is reported as a violation",
+                            },
+                            "wall_s": round3(wall), "violations": 1,
+                        });
+                        let _ = std::fs::create_dir_all(format!("{}/evidence", verif_dir));
+                        let _ = std::fs::write(format!("{}/evidence/{}.json", verif_dir, prop), serde_json::to_string_pretty(&ev).unwrap());
+                        println!("{} {} seed={} -> VIOLATED (non-terminating run)", prop, tier.name(), master);
+                        std::process::exit(1);
+                    }
+                }
+            });
+            for w in 0..nworkers {
+                let inflight = &inflight;
+                let finished = &finished;
+                let total = &total;
+                let next = &next;
+                sc.spawn(move || {
+                    let mut acc = Acc::new();
                     loop {
                         let start = next.fetch_add(chunk, Ordering::Relaxed);
                         if start >= runs {
                             break;
                         }
+                        // hand the finished chunk over, so that the watchdog can report real numbers
+                        if acc.done_runs > 0 {
+                            inflight[w].0.store(0, Ordering::SeqCst);
+                            std::mem::replace(&mut acc, Acc::new()).merge_into(&mut total.lock().unwrap());
+                        }
                         for run in start..(start + chunk).min(runs) {
+                            inflight[w].1.store(t0.elapsed().as_millis() as u64, Ordering::SeqCst);
+                            inflight[w].0.store(run + 1, Ordering::SeqCst);
                             let seed = run_seed(master, prop, S::NAME, run);
                             let case = S::generate(seed, run, prop, tier);
                             let out = S::execute(&case, prop);
+                            acc.done_runs += 1;
                             acc.steps += out.stats.steps;
                             for (k, v) in &out.stats.faults {
                                 *acc.faults.entry(k).or_insert(0) += v;
@@ -362,26 +435,9 @@ impl CheckCtx {
                             }
                         }
                     }
-                    let mut t = total.lock().unwrap();
-                    t.steps += acc.steps;
-                    for (k, v) in acc.faults {
-                        *t.faults.entry(k).or_insert(0) += v;
-                    }
-                    for (k, v) in acc.probes {
-                        *t.probes.entry(k).or_insert(0) += v;
-                    }
-                    t.sigs.extend(acc.sigs);
-                    t.nontrivial.extend(acc.nontrivial);
-                    t.nviol += acc.nviol;
-                    t.log_xor ^= acc.log_xor;
-                    for (c, x) in acc.viol {
-                        match t.viol.get(&c) {
-                            Some(old) if old.0 <= x.0 => {}
-                            _ => {
-                                t.viol.insert(c, x);
-                            }
-                        }
-                    }
+                    acc.merge_into(&mut total.lock().unwrap());
+                    inflight[w].0.store(0, Ordering::SeqCst);
+                    finished.fetch_add(1, Ordering::SeqCst);
                 });
             }
         });
@@ -442,8 +498,25 @@ impl CheckCtx {
     }
 }
 
+/// per-run time limit of the watchdog (PDSIM_RUN_TIMEOUT_S, default 120 s)
+pub fn run_timeout_ms() -> u64 {
+    std::env::var("PDSIM_RUN_TIMEOUT_S").ok().and_then(|s| s.parse::<u64>().ok()).unwrap_or(120) * 1000
+}
+
 pub fn round3(x: f64) -> f64 {
     (x * 1000.0).round() / 1000.0
+}
+
+/// Executes a case on a helper thread; None if it does not return within the per-run limit
+/// (the helper thread is abandoned then).
+pub fn execute_with_timeout<S: Scenario>(case: &S::Case, prop: &'static str) -> Option<Outcome> {
+    let (tx, rx) = std::sync::mpsc::channel();
+    let c = case.clone();
+    std::thread::spawn(move || {
+        let out = S::execute(&c, prop);
+        let _ = tx.send(out);
+    });
+    rx.recv_timeout(std::time::Duration::from_millis(run_timeout_ms())).ok()
 }
 
 /// Greedy delta debugging: accept a candidate iff the same violation class recurs.
@@ -457,7 +530,10 @@ pub fn minimise<S: Scenario>(mut case: S::Case, prop: &'static str, v: &Violatio
         }
         for cand in S::shrink(&case) {
             execs += 1;
-            let out = S::execute(&cand, prop);
+            let out = match execute_with_timeout::<S>(&cand, prop) {
+                Some(o) => o,
+                None => break 'outer, // a candidate that hangs: stop minimising, keep what we have
+            };
             if let Some(nv) = out.violations.into_iter().find(|x| x.class == v.class) {
                 case = cand;
                 best_v = nv;
@@ -496,7 +572,10 @@ pub fn replay_case<S: Scenario>(doc: &Value, prop: &'static str) -> Vec<Violatio
             std::process::exit(2)
         }
     };
-    S::execute(&case, prop).violations
+    match execute_with_timeout::<S>(&case, prop) {
+        Some(o) => o.violations,
+        None => vec![Violation { property: prop, class: format!("{}/hang", S::NAME), step: 0, detail: format!("the run did not return within {} s", run_timeout_ms() / 1000) }],
+    }
 }
 
 // ---------------------------------------------------------------------------
